@@ -159,6 +159,7 @@ Proof.
   - injection H as <-. reflexivity.
   - destruct (parse_int s); [|discriminate]. injection H as <-. reflexivity.
   - destruct (arg_value r); try discriminate. injection H as <-. reflexivity.
+  - destruct (cast_other ko_default ko_table s); try discriminate. injection H as <-. reflexivity.
 Qed.
 
 (** counters survive any [run_occ] *)
